@@ -13,6 +13,7 @@ import (
 
 	"github.com/btcsuite/btcd/btcec/v2"
 	"github.com/btcsuite/btcd/chaincfg"
+	"github.com/elementsproject/peerswap/clightning"
 	"github.com/elementsproject/peerswap/lnd"
 	"github.com/elementsproject/peerswap/log"
 	"github.com/elementsproject/peerswap/messages"
@@ -64,6 +65,8 @@ type Node struct {
 	lnd       *fakeLnd  // tier 2: the simulated LND behind the real adapter
 	lndInbox  *lndQueue // ... its custom-message subscription, if any
 	lndClient *lnd.Client
+	cln       *fakeCln // tier 3: the simulated lightningd behind the real clightning adapter
+	clnClient *clightning.ClightningClient
 	lndPending []inMsg
 	Recovered bool
 	LastHeight map[string]uint32 // last height served per chain
@@ -335,6 +338,16 @@ func (n *Node) boot() {
 		}
 		ln, msgr = lndSide, lndSide
 	}
+	var clnSide *clnShim
+	if scn.Adapter[n.ID] == "cln" {
+		var err error
+		clnSide, err = n.bootCln(ctx)
+		if err != nil {
+			fail("cln", err)
+			return
+		}
+		ln, msgr = clnSide, clnSide
+	}
 
 	var btcWatcher, lbtcWatcher swap.TxWatcher
 	var btcWallet swap.Wallet
@@ -356,6 +369,11 @@ func (n *Node) boot() {
 		btcWatcher = bw
 		btcWallet = n.BtcWallet
 		btcValidator = n.BtcOn
+		if clnSide != nil {
+			// tier 3: the CLN adapter is the Bitcoin wallet (cmd/peerswap-plugin/main.go)
+			btcWallet = clnSide
+			clnSide.c.SimSetChain(n.BtcOn)
+		}
 	}
 	if liquidOn {
 		n.LiquidOn = onchain.NewLiquidOnChain(n.LiquidWallet, &network.Regtest)
@@ -455,6 +473,7 @@ func (n *Node) Crash(restartMs int) {
 		n.lnd.release()
 	}
 	n.lnd, n.lndInbox, n.lndClient, n.lndPending = nil, nil, nil, nil
+	n.cln, n.clnClient = nil, nil
 	n.Svc = nil
 	w.Observe(&Obs{Node: n.ID, Inc: n.inc, Kind: "crash"})
 	if restartMs >= 0 {
@@ -526,6 +545,11 @@ func (n *Node) handle(m inMsg) {
 	rt.Yield("deliver")
 	n.w.Observe(&Obs{Node: n.ID, Inc: n.inc, Kind: "handling", Num: int64(m.idx)})
 	hs := n.handlers
+	if c := n.clnClient; c != nil {
+		// tier 3: lightningd's custommsg hook calls the plugin
+		c.SimDeliver(n.w.Nodes[m.from].Pubkey, m.typ, m.payload)
+		hs = nil
+	}
 	for _, h := range hs {
 		err := h(n.w.Nodes[m.from].Pubkey, messages.MessageTypeToHexString(messages.MessageType(m.typ)), m.payload)
 		_ = err
